@@ -489,6 +489,7 @@ def _finish(ctx, wall):
         "checker_cmd": "cd lean && lake build Walleye.Props.%s && lake env lean ../build/audit_%s.lean  (kernel check + #print axioms; thorough tier adds leanchecker)" % (ctx.prop, ctx.prop),
         "trusted_base": TRUSTED_BASE,
         "theorems": thms,
+        "leanchecker": ctx.audit.get("leanchecker", "not run in the quick tier"),
         "evaluations": ctx.evals,
         "distinct_nontrivial": len(ctx.nontrivial),
         "rule": ctx.rule,
